@@ -835,6 +835,17 @@ def expand_for(lines, root):
                             spec = fl.split(":", 1)[1]
                     spec = " ".join("(" + t + ")" for t in re.findall(r"\(([^()]*)\)", spec) if t.split(";")[0].strip() != PARAMS.get("FAM"))
                     key = None
+                if key == "ONE_TWIN":
+                    # the unsigned family of the same width as the instance's (signed) family; empty for an unsigned instance
+                    rows = []
+                    for fl in open(root + "/specs/families.txt"):
+                        if fl.startswith("ALL10:"):
+                            rows = re.findall(r"\(([^()]*)\)", fl.split(":", 1)[1])
+                    mine = [t for t in rows if t.split(";")[0].strip() == PARAMS.get("FAM")]
+                    spec = ""
+                    if mine and mine[0].split(";")[4].strip() == "true":
+                        spec = " ".join("(" + t + ")" for t in rows if t.split(";")[3].strip() == mine[0].split(";")[3].strip() and t.split(";")[4].strip() == "false")
+                    key = None
                 if key in ("ONE", "ONE_SIGNED", "ONE_UNSIGNED"):
                     # unit instance for a single family (driver runs the ten instances in parallel)
                     only = PARAMS.get("FAM")
